@@ -12,10 +12,12 @@ is more robust w.r.t. argument numbering than using repr.
 # Modified by Anders Logg, 2009-2010.
 # Modified by Johan Hake, 2010.
 
+import re
 from functools import cmp_to_key
 
 from ufl.argument import Argument
 from ufl.coefficient import Coefficient
+from ufl.constant import Constant
 from ufl.core.multiindex import FixedIndex, MultiIndex
 from ufl.variable import Label
 
@@ -88,12 +90,41 @@ def _cmp_argument(a, b):
         return 0
 
 
+_digits = re.compile(r"(\d+)")
+
+
+def _natural_key(s):
+    """Split a string into text and integer runs so embedded numbers compare numerically."""
+    return [int(t) if i % 2 else t for i, t in enumerate(_digits.split(s))]
+
+
 def _cmp_terminal_by_repr(a, b):
     """Cmp terminal by repr."""
     # The cost of repr on a terminal is fairly small, and bounded
     x = repr(a)
     y = repr(b)
-    return -1 if x < y else (0 if x == y else 1)
+    if x == y:
+        return 0
+    # The repr embeds global counters (e.g. the id of the mesh). These
+    # must be ordered as numbers, not as strings ("10" < "9"), or the
+    # ordering changes when a counter gains a digit.
+    kx = _natural_key(x)
+    ky = _natural_key(y)
+    if kx != ky:
+        return -1 if kx < ky else 1
+    return -1 if x < y else 1
+
+
+def _cmp_constant(a, b):
+    """Cmp constant."""
+    # Compare counts as integers, like for coefficients
+    x = a._count
+    y = b._count
+    if x < y:
+        return -1
+    elif x > y:
+        return 1
+    return _cmp_terminal_by_repr(a, b)
 
 
 # Hack up a MultiFunction-like type dispatch for terminal comparisons
@@ -102,6 +133,7 @@ _terminal_cmps[MultiIndex._ufl_typecode_] = _cmp_multi_index
 _terminal_cmps[Argument._ufl_typecode_] = _cmp_argument
 _terminal_cmps[Coefficient._ufl_typecode_] = _cmp_coefficient
 _terminal_cmps[Label._ufl_typecode_] = _cmp_label
+_terminal_cmps[Constant._ufl_typecode_] = _cmp_constant
 
 
 def cmp_expr(a, b):
